@@ -37,6 +37,9 @@ pub struct Cfg {
     /// record the path snapshot of every iteration
     #[serde(default)]
     pub want_paths: bool,
+    /// keep at most this many hook events (0 = all)
+    #[serde(default)]
+    pub path_cap: usize,
     /// record the outcome of every iteration in order (C13/C16)
     #[serde(default)]
     pub want_seq: bool,
@@ -66,6 +69,8 @@ pub struct RunResult {
     pub seq_keys: Vec<String>,
     /// hook phases seen: (phase, iter)
     pub phases: Vec<(String, usize)>,
+    /// raw iteration-hook events (phase, iter, path json) when `want_paths`
+    pub hook_events: Vec<(String, usize, String)>,
 }
 
 pub fn classify(msg: &str) -> &'static str {
@@ -127,9 +132,7 @@ impl Acc {
                 }
                 self.res.seq.push(id);
             }
-            if cfg.want_paths {
-                self.res.paths.push(path);
-            }
+            let _ = path;
             if cfg.trace_cap > 0 && !self.seen.contains(&log) {
                 self.res.distinct_traces += 1;
                 if self.res.traces.len() < cfg.trace_cap {
@@ -158,6 +161,9 @@ pub fn run_program(prog: &Prog, cfg: &Cfg) -> RunResult {
         let mut a = acc2.borrow_mut();
         if cfg2.want_paths {
             a.res.phases.push((phase.to_string(), iter));
+            if cfg2.path_cap == 0 || a.res.hook_events.len() < cfg2.path_cap {
+                a.res.hook_events.push((phase.to_string(), iter, path.to_string()));
+            }
         }
         match phase {
             "end" => {
@@ -177,11 +183,7 @@ pub fn run_program(prog: &Prog, cfg: &Cfg) -> RunResult {
                     }
                 }
             }
-            "start" => {
-                if cfg2.want_paths {
-                    a.res.paths.push(format!("START:{}", path));
-                }
-            }
+
             _ => {}
         }
     })));
@@ -245,9 +247,7 @@ pub fn run_program(prog: &Prog, cfg: &Cfg) -> RunResult {
                 (Some((plog, _, _)), true) => evs(plog),
                 _ => evs(&log),
             };
-            if out.end == "capped" {
-                out.iters -= 0;
-            }
+
         }
     }
     out
